@@ -28,6 +28,9 @@ type Ctx struct {
 	declared map[string]string // symbol -> sort/signature
 	dtypes   map[string]bool
 	hyps     []string // assertions (hypotheses), in generation order
+	htag     []int    // state id under which each hypothesis was generated (0 = global)
+	tag      int      // current state id
+	parents  map[int][]int
 	n        int
 	obls     []*Obligation
 	strlits  map[string]string
@@ -48,6 +51,7 @@ type Obligation struct {
 	pc      string
 	goal    string
 	ctx     *Ctx
+	state   int  // id of the symbolic state the obligation was generated in
 	Soft    bool // overflow etc.: never a violation
 	Vacuity bool // expected to be SAT (reachability cover)
 	// results
@@ -59,7 +63,7 @@ type Obligation struct {
 }
 
 func newCtx() *Ctx {
-	return &Ctx{declared: map[string]string{}, dtypes: map[string]bool{}, strlits: map[string]string{},
+	return &Ctx{parents: map[int][]int{}, declared: map[string]string{}, dtypes: map[string]bool{}, strlits: map[string]string{},
 		flits: map[string]float64{}, mentions: map[string]bool{}, lemmasUsed: map[string]bool{}}
 }
 
@@ -91,6 +95,34 @@ func (c *Ctx) assume(t string) {
 		return
 	}
 	c.hyps = append(c.hyps, t)
+	c.htag = append(c.htag, c.tag)
+}
+
+// assumeGlobal records a fact that is independent of the program point
+// (definitional axioms of lazily declared functions and constants).
+func (c *Ctx) assumeGlobal(t string) {
+	if t == "true" {
+		return
+	}
+	c.hyps = append(c.hyps, t)
+	c.htag = append(c.htag, 0)
+}
+
+// ancestors returns the set of state ids from which state id is reachable
+// (including itself and the global tag 0).
+func (c *Ctx) ancestors(id int) map[int]bool {
+	seen := map[int]bool{0: true}
+	stack := []int{id}
+	for len(stack) > 0 {
+		x := stack[len(stack)-1]
+		stack = stack[:len(stack)-1]
+		if seen[x] {
+			continue
+		}
+		seen[x] = true
+		stack = append(stack, c.parents[x]...)
+	}
+	return seen
 }
 
 func sanitize(s string) string {
@@ -414,7 +446,7 @@ func (c *Ctx) zero(t types.Type) string {
 		name := "zeroarr$" + sanitize(es)
 		if _, ok := c.declared[name]; !ok {
 			c.declare(name, arraySort(sInt, es))
-			c.assume(fmt.Sprintf("(forall ((i Int)) (! (= (select %s i) %s) :pattern ((select %s i))))", name, z, name))
+			c.assumeGlobal(fmt.Sprintf("(forall ((i Int)) (! (= (select %s i) %s) :pattern ((select %s i))))", name, z, name))
 		}
 		return name
 	}
@@ -430,10 +462,10 @@ func (c *Ctx) strLit(s string) string {
 	n := fmt.Sprintf("strlit!%d", len(c.strlits))
 	c.strlits[s] = n
 	c.declare(n, sStr)
-	c.assume(eq(app("slen", n), num(int64(len(s)))))
+	c.assumeGlobal(eq(app("slen", n), num(int64(len(s)))))
 	if len(s) <= 16 {
 		for i := 0; i < len(s); i++ {
-			c.assume(eq(app("sat", n, num(int64(i))), num(int64(s[i]))))
+			c.assumeGlobal(eq(app("sat", n, num(int64(i))), num(int64(s[i]))))
 		}
 	}
 	return n
@@ -447,7 +479,7 @@ func (c *Ctx) floatLit(f float64) string {
 	if _, ok := c.flits[key]; !ok {
 		c.flits[key] = f
 		c.declare(key, sF)
-		c.assume(app("f_fin", key))
+		c.assumeGlobal(app("f_fin", key))
 	}
 	return key
 }
@@ -579,6 +611,7 @@ var preludeAxioms = [][2]string{
 	{"f-lt-le-trans", "(forall ((a F) (b F) (c F)) (! (=> (and (f_lt a b) (f_le b c)) (f_lt a c)) :pattern ((f_lt a b) (f_le b c))))"},
 	{"f-le-lt-trans", "(forall ((a F) (b F) (c F)) (! (=> (and (f_le a b) (f_lt b c)) (f_lt a c)) :pattern ((f_le a b) (f_lt b c))))"},
 	{"f-le-nonnan", "(forall ((a F) (b F)) (! (=> (f_le a b) (and (f_eq a a) (f_eq b b))) :pattern ((f_le a b))))"},
+	{"f-total-nonnan", "(forall ((a F) (b F)) (! (=> (and (f_eq a a) (f_eq b b) (not (f_lt a b))) (f_le b a)) :pattern ((f_lt a b))))"},
 	{"f-fin-refl", "(forall ((a F)) (! (=> (f_fin a) (f_eq a a)) :pattern ((f_fin a))))"},
 	{"f-total-fin", "(forall ((a F) (b F)) (! (=> (and (f_fin a) (f_fin b)) (or (f_lt a b) (f_eq a b) (f_lt b a))) :pattern ((f_fin a) (f_fin b))))"},
 	{"i2f-fin", "(forall ((i Int)) (! (f_fin (i2f i)) :pattern ((i2f i))))"},
@@ -606,8 +639,14 @@ func (o *Obligation) render() string {
 			b.WriteString("(assert " + f + ")\n")
 		}
 	}
-	for _, h := range c.hyps[:o.nhyps] {
-		b.WriteString("(assert " + h + ")\n")
+	// only hypotheses generated on a path leading to the obligation's state
+	// (or global ones) are relevant; the others are guarded by path
+	// conditions of other branches
+	anc := c.ancestors(o.state)
+	for i, h := range c.hyps[:o.nhyps] {
+		if anc[c.htag[i]] {
+			b.WriteString("(assert " + h + ")\n")
+		}
 	}
 	b.WriteString("(assert " + o.pc + ")\n")
 	if o.Vacuity {
